@@ -153,8 +153,12 @@ def oracle_plain_factory():
     the same actions and control (Config.tree = 0, first); the run through parse_tree::parse must end the same way — result, consumed
     bytes, blamed rule — and make the same rule invocations and action calls."""
     plain = {}
+    cur = [None]
 
     def oracle(c: Case, tr: Trace) -> Optional[str]:
+        if cur[0] != c.g.gid:       # cases arrive grammar by grammar: nothing of an earlier grammar is needed again
+            plain.clear()
+            cur[0] = c.g.gid
         key = (c.g.gid, c.cfg.root, c.data, c.cfg.a, c.cfg.m, c.cfg.unwind)
         obs = (tr.result, [l for l in tr.events if l.split(' ', 1)[0] in ('E', 'X', 'ap', 'a0')])
         if not c.cfg.tree:
